@@ -2,7 +2,7 @@
    vanilla reference layouts (Model/Vanilla.v). *)
 From Coq Require Import List NArith ZArith String Bool Lia.
 From Verif Require Import Base.Hex Model.Layout Model.LayoutPrims Model.Vanilla Gen.PacketLayouts
-  Proofs.C04_layout Proofs.C04_prims Proofs.C04.
+  Proofs.C04_layout Proofs.C04_prims Proofs.GenLemmas.
 Import ListNotations.
 Open Scope string_scope.
 
@@ -137,88 +137,14 @@ Theorem C07_upsert_refuted_lemma :
 Proof.
   split; [vm_compute; discriminate|]. split.
   - unfold ups_intended. cbn.
-    repeat first [ reflexivity | exact I | (progress (vm_compute; reflexivity)) | eexists | split | (constructor; fail) | apply Forall_cons | apply Forall_nil ].
-  - eexists. split; [vm_compute; reflexivity|]. vm_compute. discriminate.
-Qed.
-
-(* ---- player info update ---- *)
-Fixpoint all_bools (n : nat) : list (list bool) :=
-  match n with
-  | O => [[]]
-  | S k => (map (cons true) (all_bools k) ++ map (cons false) (all_bools k))%list
-  end.
-Definition all_bools8 := all_bools 8.
-Definition pick (bs : list bool) : list N :=
-  map snd (filter fst (combine bs [0; 1; 2; 3; 4; 5; 6; 7]%N)).
-
-Lemma all_bools_complete n : forall l : list bool, List.length l = n -> In l (all_bools n).
-Proof.
-  induction n as [|n IH]; intros l H.
-  - destruct l; [left; reflexivity | discriminate].
-  - destruct l as [|b r]; [discriminate|]. cbn [all_bools]. apply in_or_app.
-    destruct b; [left | right]; apply in_map; apply IH; cbn in H; lia.
-Qed.
-
-Lemma filter_as_pick {A} (f : A -> bool) (l : list A) :
-  filter f l = map snd (filter fst (combine (map f l) l)).
-Proof.
-  induction l as [|a r IH]; [reflexivity|]. cbn [map combine filter fst snd].
-  destruct (f a); cbn [map snd]; rewrite IH; reflexivity.
-Qed.
-
-(* every reference layout of the update packet (256 action sets x the registered contexts) is well formed *)
-Definition upsert_wf_all : bool :=
-  forallb (fun bs => forallb (fun c => wf LP (upsert_layout_in_order (pick bs) c) c) ctxs_playerinfo_Upsert) all_bools8.
-Lemma upsert_wf_all_true : upsert_wf_all = true.
-Proof. vm_compute. reflexivity. Qed.
-
-Lemma canonical_is_pick acts : exists bs, In bs all_bools8 /\ canonical acts = pick bs.
-Proof.
-  exists (map (fun a => existsb (N.eqb a) acts) [0; 1; 2; 3; 4; 5; 6; 7]%N). split.
-  - apply all_bools_complete. reflexivity.
-  - unfold canonical, pick. apply filter_as_pick.
-Qed.
-
-(* the canonical encoder (what the property demands) is inverted by the vanilla reader, for every action list,
-   in whatever order and with whatever repetitions the API supplied it *)
-Theorem C07_upsert_spec_lemma : forall acts c, In c ctxs_playerinfo_Upsert ->
-  forall v, in_dom LP lp_dom (van_upsert acts c) c v ->
-  exists bs, enc_L LP (spec_upsert acts c) c v = Ok bs /\ dec_L LP (van_upsert acts c) c bs = Ok (v, []).
-Proof.
-  intros acts c Hc v D. unfold spec_upsert, van_upsert in *.
-  destruct (canonical_is_pick acts) as [bs [Hb Hp]]. rewrite Hp in *.
-  pose proof upsert_wf_all_true as W. unfold upsert_wf_all in W.
-  rewrite forallb_forall in W. specialize (W bs Hb). rewrite forallb_forall in W. specialize (W c Hc).
-  destruct (layout_roundtrip LP lp_dom lp_ok _ c v [] W D (fun _ => eq_refl)) as [out [E Dd]].
-  rewrite app_nil_r in Dd. exists out. auto.
-Qed.
-
-(* the encoder as implemented coincides with the canonical one when the API supplied the canonical order *)
-Theorem C07_upsert_impl_eq_spec_lemma : forall acts c, canonical acts = acts -> impl_upsert acts c = spec_upsert acts c.
-Proof. intros acts c H. unfold impl_upsert, spec_upsert, van_upsert. rewrite H. reflexivity. Qed.
-
-(* ... and not otherwise: ActionSet [Latency; Listed], one entry with latency 300, listed: the vanilla reader
-   takes the first latency byte for the listed flag *)
-Definition ups_value : value :=
-  VPair VUnit (VPair (VList [VPair (VAtom (ABytes (repeat 7%N 16))) (VPair (VAtom (AZ 300)) (VPair (VAtom (ABool true)) VUnit))]) VUnit).
-Definition ups_intended : value :=
-  VPair VUnit (VPair (VList [VPair (VAtom (ABytes (repeat 7%N 16))) (VPair (VAtom (ABool true)) (VPair (VAtom (AZ 300)) VUnit))]) VUnit).
-Theorem C07_upsert_refuted_lemma :
-  canonical [4; 3]%N <> [4; 3]%N /\
-  in_dom LP lp_dom (van_upsert [4; 3]%N (mkctx 765 true)) (mkctx 765 true) ups_intended /\
-  exists bs, enc_L LP (impl_upsert [4; 3]%N (mkctx 765 true)) (mkctx 765 true) ups_value = Ok bs /\
-             van_upsert_decode (mkctx 765 true) bs <> Ok (ups_intended, []).
-Proof.
-  split; [vm_compute; discriminate|]. split.
-  - cbn. split; [reflexivity|]. split; [|vm_compute; reflexivity].
-    eexists. eexists. split; [reflexivity|]. split.
-    + eexists. split; [reflexivity|]. split.
-      * constructor; [|constructor].
-        eexists. eexists. split; [reflexivity|]. split; [eexists; split; [reflexivity | vm_compute; reflexivity]|].
-        eexists. eexists. split; [reflexivity|]. split; [eexists; split; [reflexivity | vm_compute; reflexivity]|].
-        eexists. eexists. split; [reflexivity|]. split; [eexists; split; [reflexivity | vm_compute; reflexivity]|].
-        reflexivity.
-      * split; [vm_compute; reflexivity | exact I].
-    + reflexivity.
+    eexists. eexists. split; [reflexivity|]. split; [split; [reflexivity | vm_compute; reflexivity]|].
+    eexists. eexists. split; [reflexivity|]. split; [|reflexivity].
+    eexists. split; [reflexivity|]. split.
+    + apply Forall_cons; [|apply Forall_nil].
+      eexists. eexists. split; [reflexivity|]. split; [eexists; split; [reflexivity | vm_compute; reflexivity]|].
+      eexists. eexists. split; [reflexivity|]. split; [eexists; split; [reflexivity | vm_compute; reflexivity]|].
+      eexists. eexists. split; [reflexivity|]. split; [eexists; split; [reflexivity | vm_compute; reflexivity]|].
+      reflexivity.
+    + split; [vm_compute; reflexivity | exact I].
   - eexists. split; [vm_compute; reflexivity|]. vm_compute. discriminate.
 Qed.
